@@ -5,11 +5,20 @@
 #include "vp_names.h"
 
 const char *vp_names_dir = 0;
+static const char *vp_names_known[VP_NAMES_MAX];
+static int vp_names_known_n = 0;
+
+void
+vp_names_register(const char *name) {
+  VP_ASSERT(vp_names_known_n < VP_NAMES_MAX, "vp-model: name table full");
+  vp_names_known[vp_names_known_n++] = name;
+}
+
 int vp_names_joins = 0;
 int vp_names_parses = 0;
 
 void
-vp_name_make(char *buf, int owned, ldb_filetype_t type, uint64_t number, int variant) {
+vp_name_make(char *buf, int owned, ldb_filetype_t type, uint64_t number, int variant, int tag) {
   int k;
   if (owned && (type == LDB_FILE_CURRENT || type == LDB_FILE_LOCK || type == LDB_FILE_INFO))
     number = 0;
@@ -17,7 +26,8 @@ vp_name_make(char *buf, int owned, ldb_filetype_t type, uint64_t number, int var
   for (k = 0; k < 8; k++)
     buf[1 + k] = (char)((number >> (8 * k)) & 0xff);
   buf[9] = (char)(variant & 1);
-  buf[10] = 0;
+  buf[10] = (char)(tag & 0x7f);
+  buf[11] = 0;
 }
 
 int
@@ -47,7 +57,7 @@ vp_name_number(const char *name) {
 int
 vp_name_same(const char *a, const char *b) {
   int k;
-  if ((a[0] & 0x7f) != (b[0] & 0x7f))
+  if (a[10] != b[10] || (a[0] & 0x7f) != (b[0] & 0x7f))
     return 0;
   for (k = 1; k < 10; k++)
     if (a[k] != b[k])
@@ -71,13 +81,27 @@ ldb_parse_filename(ldb_filetype_t *type, uint64_t *num, const char *name) {
    that could be opened has room for its own file names. */
 int
 ldb_join(char *zp, size_t zn, const char *xp, const char *yp) {
-  int k;
+  int i, k, hit = 0;
   vp_names_joins++;
   VP_ASSERT(zn >= VP_NAME_LEN, "vp-model: join buffer holds an encoded name");
   VP_ASSERT(xp == vp_names_dir, "file names are joined with the database directory");
   VP_ASSERT(!vp_name_joined(yp), "a base name is joined once");
-  for (k = 0; k < VP_NAME_LEN; k++)
-    zp[k] = yp[k];
+  /* a registered name buffer is recognised by its address, so that its bytes
+     are read from a concrete object and not through a symbolic pointer */
+  for (i = 0; i < VP_NAMES_MAX; i++) {
+    if (!hit && i < vp_names_known_n && yp == vp_names_known[i]) {
+      const char *src = vp_names_known[i];
+      for (k = 0; k < VP_NAME_LEN; k++)
+        zp[k] = src[k];
+      hit = 1;
+    }
+  }
+  if (vp_names_known_n == 0) {
+    for (k = 0; k < VP_NAME_LEN; k++)
+      zp[k] = yp[k];
+  } else {
+    VP_ASSERT(hit, "the base name that is joined is one of the listed name buffers");
+  }
   zp[0] = (char)(zp[0] | VP_NAME_JOINED);
   return 1;
 }
